@@ -1,29 +1,28 @@
 (** C20 — a chain once reported fully valid can be activated again. Closed, instantiated machine.
 
     PROVED:
-      * C20_full_validity_truthful: in every state reachable by a history of connectBlock / setState calls (any tree,
-        any payloads, any failing switches, back and forth), every block at level CAN_BE_APPLIED replays successfully
+      * C20_full_validity_truthful: in EVERY reachable state (any history of connectBlock / setState / comparePopScore
+        with any scorer, any tree, payloads, failing positions) every block at level CAN_BE_APPLIED replays successfully
         ALONE - the bodies of root..b executed from the bootstrap state all succeed. (Invariant over all block-level
-        steps; key step: the level is raised only when the as-coded counter check holds, the counting argument then
-        shows that exactly root..parent is applied, so P is a permutation of the parent's replay, and success of a
-        command group does not depend on the order of P.)
-      * the level logic of applyBlock for ALL states (also inside comparisons): the fully-valid level is raised only on
-        a fully valid parent and only when the applied-block counter says nothing but root..parent is applied
-        (C20_full_validity_truthful_partial = the guard); a block applied next to another chain or on a MAYBE parent
-        is never reported as fully valid by that application (C20_maybe_level_never_reported_full);
+        steps, also inside comparisons; key step: the level is raised only when the as-coded counter check holds, the
+        counting argument then shows that exactly root..parent is applied, so P is a permutation of the parent's replay,
+        and success of a command group does not depend on the order of P.)
+      * the level logic of applyBlock for ALL states: the fully-valid level is raised only on a fully valid parent and
+        only when the applied-block counter says nothing but root..parent is applied
+        (C20_full_level_guard); a block applied next to another chain or on a MAYBE parent is never
+        reported as fully valid by that application (C20_maybe_level_never_reported_full);
       * the unapply discipline (applied, parent applied, no applied child) (C20_unapply_order).
-    GAPS (hence _partial; full statements):
-      full_validity_truthful for histories that also contain comparePopScore (needs the quiet invariant through the
-        apply-both / unapplyWhile / re-apply dance, see Properties_C02.v);
-      reactivation : reachable s -> level b = CAN_BE_APPLIED -> b not invalidated -> setState s b = Ok (_, true)
-        (needs, besides truthfulness, FAILED_CHILD / level coherence of the tree and Abort-freedom of the walk).
-      Both are checked on the implementation by the re-activation oracle and by the exact comparison of validity
-      levels with the model. *)
+    GAP (hence _partial; full statement):
+      reactivation : reachable s -> level b = CAN_BE_APPLIED -> b not invalidated -> setState s b = Ok (_, true).
+      Proved: a successful setState ends on the fully valid target (C20_reactivation_partial) and the replay of root..b
+      succeeds (truthfulness); not proved: that the walk of setState itself cannot fail or hit an assert (needs
+      FAILED_CHILD / level coherence of the tree and Abort-freedom). Checked on the implementation by the
+      re-activation oracle, the apply/unapply trace oracle and the exact comparison of validity levels with the model. *)
 From Coq Require Import List ZArith NArith Bool.
-From VB Require Import Pop.SmDefs Pop.SmProofs Pop.SmWf Pop.SmTruth.
+From VB Require Import Pop.SmDefs Pop.SmProofs Pop.SmWf Pop.SmTruth Pop.SmCmp Pop.SmAll.
 Local Open Scope Z_scope.
 
-Theorem C20_full_validity_truthful_partial :
+Theorem C20_full_level_guard :
   forall s i s' b pb b',
     c_applyBlock s i = Ok (s', true) ->
     find ccmd (blocks _ _ s) i = Some b -> find ccmd (blocks _ _ s) (b_par _ b) = Some pb ->
@@ -31,7 +30,7 @@ Theorem C20_full_validity_truthful_partial :
     b_lvl _ b <> L_FULL -> b_lvl _ b' = L_FULL ->
     valid_upto _ pb L_FULL = true /\ b_h _ b = root_h _ _ s + Z.of_N (napp _ _ s).
 Proof. exact full_level_guard. Qed.
-Print Assumptions C20_full_validity_truthful_partial.
+Print Assumptions C20_full_level_guard.
 
 Theorem C20_maybe_level_never_reported_full :
   forall s i s' b pb b',
@@ -61,9 +60,8 @@ Proof. exact setState_true_outcome. Qed.
 Print Assumptions C20_reactivation_partial.
 
 Theorem C20_full_validity_truthful :
-  forall base r h ops s,
-    no_compare ops -> run (c_init r h base) ops = Ok s ->
+  forall base s, reachable base s ->
     forall b, In b (blocks _ _ s) -> N.leb L_FULL (b_lvl _ b) = true ->
               exists p', replay (bgs s (depth s (b_id _ b)) (b_id _ b)) base = Some p'.
-Proof. exact full_validity_truthful. Qed.
+Proof. exact full_validity_truthful_all. Qed.
 Print Assumptions C20_full_validity_truthful.
